@@ -455,6 +455,8 @@ def _maybe_apply_am_pm(t: Time, ampm_match: str) -> Time:
         return t
     if ampm_match is None:
         return t
+    # the ampm group may start with white space (e.g. after "uhr"/"h": "8:30 h pm")
+    ampm_match = ampm_match.strip()
     if ampm_match.lower().startswith("a") and t.hour == 12:
         # 12 am is midnight
         return Time(hour=0, minute=t.minute)
